@@ -21,7 +21,7 @@ from checks.c15 import fork_bool, fork_choice
 from checks.common import TemplateObligation
 from lx.check import Obligation, Verdict
 from lx.engine import SymStr, Unsupported, sym_value
-from lx.lifted import LiftedScript, dump_runner
+from lx.lifted import TWIN, LiftedScript, dump_runner, twin_fault
 from lx.tree import Names
 
 PID = "C10"
@@ -94,6 +94,8 @@ class MonitorOb(TemplateObligation):
         exc = None
         try:
             accessors(self.script.runner(names))
+            TWIN["n"] = 0
+            twin_fault()
         except SQLLineageException as e:
             exc = None          # the library's own exception types are within the contract
             lib = type(e).__name__
@@ -143,6 +145,8 @@ class EmptyParseOb(TemplateObligation):
         esc = None
         try:
             dump_runner(self.sc[k].runner(names, silent_mode=silent))
+            TWIN["n"] = 0
+            twin_fault()
         except SQLLineageException:
             pass
         except Exception as e:
@@ -298,6 +302,9 @@ class ParseKernelOb(Obligation):
         finally:
             an.Linter = real
         want = "InvalidSyntaxException" if any(p in (0, 1) for p in picks) else "UnsupportedStatementException"
+        if TWIN["on"]:      # sensitivity twin: the observed outcome is another one
+            TWIN["n"] += 1
+            raised = "twin:%s" % raised
         return Verdict(raised == want, {"violations": [classes[p].__name__ for p in picks], "text": text, "raised": raised, "want": want})
 
     def replay(self, conc, verdict_ok):
